@@ -62,6 +62,12 @@ func newCBWorld() *cbWorld {
 		c.cbs[f+"/b"] = func(m api.ResponseMessage) { c.add(describe("resp", f, "b", m)) }
 		c.cbs[f+"/ra"] = func(m api.ResponseMessage) { c.add(describe("result", f, "ra", m)) }
 		c.cbs[f+"/rb"] = func(m api.ResponseMessage) { c.add(describe("result", f, "rb", m)) }
+		// two distinct result callbacks made by ONE function literal (closures sharing their code, like
+		// method values of one method on two receivers): they are two callbacks
+		for _, n := range []string{"rc", "rd"} {
+			n := n
+			c.cbs[f+"/"+n] = func(m api.ResponseMessage) { c.add(describe("result", f, n, m)) }
+		}
 	}
 	return c
 }
@@ -237,7 +243,7 @@ func c14Alphabet(thorough bool) []string {
 		"reply:F1:1:A:valid", "reply:F1:2:A:valid", "reply:F1:3:A:valid", "reply:F1:1:B:valid", "reply:F1:1:A:invalid", "reply:F2:1:A:valid",
 		"result:F1:1:A:ok", "result:F1:1:B:err", "result:F1:2:A:err", "result:F2:1:A:ok", "result:F1:3:A:ok"}
 	// callbacks of real requests to two peers (equal counters), connection removals in between
-	a = append(a, "reqcb:F1:A:a", "reqcb:F1:B:b", "disc:A", "reply:F1:@:B:valid", "result:F1:@:A:ok")
+	a = append(a, "reqcb:F1:A:a", "reqcb:F1:B:b", "disc:A", "reply:F1:@:B:valid", "result:F1:@:A:ok", "addres:F1:rc", "addres:F1:rd")
 	if thorough {
 		a = append(a, "addres:F1:rb", "addres:F2:ra", "disc:B", "reqcb:F2:A:a", "reply:F1:@:A:valid", "reply:F2:@:B:valid", "addcb:F2:2:b", "reply:F2:2:B:valid", "result:F2:2:B:ok", "reply:F1:none:A:valid", "result:F1:none:A:ok")
 	}
